@@ -4,7 +4,7 @@ import itertools
 
 from hypothesis import strategies as st
 
-from .. import irsem
+from .. import irsem, irsem_selfcheck
 from ..core import Stats, hyp_search, subseed
 
 PID = "C38"
@@ -18,7 +18,7 @@ RULE = (
     "non-trivial = an operand is negative or the exact result needs wrap-around; distinct = (type, operator, a, b)"
 )
 ASSUMPTIONS = ["run-time IR arithmetic is the one of DESIGN.md 3.1 (vf/irsem.py): wrap-around, remainder truncating toward zero"]
-TRUSTED = ["CPython", "Hypothesis", "vf/irsem.py scalar arithmetic (itself checked against gcc in vf/selftest)"]
+TRUSTED = ["CPython", "Hypothesis", "vf/irsem.py scalar arithmetic (itself checked against gcc and hand-computed tables by vf/irsem_selfcheck.py at the start of every run)"]
 REGISTER = True
 TECHNIQUE = "exhaustive enumeration (8-bit operand pairs) + boundary cross products + Hypothesis pairs against the reference IR arithmetic"
 LEVEL_TEXT = (
@@ -374,6 +374,7 @@ def replay(case):
 
 
 def run(ctx):
+    ctx.extra["irsem_selfcheck"] = irsem_selfcheck.selfcheck("quick")  # the oracle validates itself first (cached)
     shards = []
     for ty in ("i8", "u8"):
         lo, hi = rng(ty)
